@@ -1,9 +1,11 @@
 // Shared machinery of the C14 harnesses (c14_bit.cpp, c14_numeric.cpp, c14_cmp.cpp).
 //
 // Every sweep is a deterministic odometer over an explicitly constructed, duplicate-free
-// value set (or product of two sets); each point is evaluated on tetl and on a reference
-// (libstdc++ <bit>/<numeric>/<utility> and/or exact __int128 arithmetic); all results are
-// carried as __int128 so that "equal" means equal as mathematical integers.
+// value set (or a product of two sets); each point is evaluated on tetl and on a reference
+// (libstdc++ <bit>/<numeric>/<utility> and/or exact __int128 arithmetic).  All arguments and
+// results travel as __int128, so "equal" means equal as mathematical integers, and the sweep
+// engine is ordinary (non-template) code: a sweep is described by a table of plain function
+// pointers (captureless lambdas), which keeps the translation units cheap to compile.
 #pragma once
 
 #include "mc.hpp"
@@ -22,6 +24,7 @@ namespace c14 {
 
 using i128 = __int128;
 using u128 = unsigned __int128;
+using V    = i128; // the carrier of every argument and result
 using i8   = std::int8_t;
 using i16  = std::int16_t;
 using i32  = std::int32_t;
@@ -55,6 +58,19 @@ inline constexpr i128 min_v = i128(std::numeric_limits<T>::min());
 template <typename T>
 inline constexpr i128 max_v = i128(std::numeric_limits<T>::max());
 
+/// run-time description of an argument type (for case strings and generic classes)
+struct TI {
+    char const* name;
+    int width;
+    bool is_signed;
+    i128 min, max;
+};
+template <typename T>
+TI ti()
+{
+    return TI{tname<T>(), width_v<T>, std::is_signed_v<T>, min_v<T>, max_v<T>};
+}
+
 inline std::string dec(i128 v)
 {
     if (v == 0) { return "0"; }
@@ -69,13 +85,13 @@ inline std::string dec(i128 v)
     return s;
 }
 
-template <typename T>
-std::string show(T v)
+/// "-2 (0xfe)": the value and its bit pattern in the given type
+inline std::string show(i128 v, TI const& t)
 {
-    using U = std::make_unsigned_t<T>;
     char b[40];
-    std::snprintf(b, sizeof b, "0x%0*llx", width_v<T> / 4, static_cast<unsigned long long>(U(v)));
-    return dec(i128(v)) + " (" + b + ")";
+    auto const bits = std::uint64_t(u128(v)) & (t.width == 64 ? ~std::uint64_t(0) : ((std::uint64_t(1) << t.width) - 1));
+    std::snprintf(b, sizeof b, "0x%0*llx", t.width / 4, static_cast<unsigned long long>(bits));
+    return dec(v) + " (" + b + ")";
 }
 
 inline i128 iabs(i128 v) { return v < 0 ? -v : v; }
@@ -86,12 +102,16 @@ bool fits(i128 v)
     return v >= min_v<T> && v <= max_v<T>;
 }
 
-// "simplest first": by magnitude, non-negative before negative
-template <typename T>
-void sort_simplest_first(std::vector<T>& v)
+// ---------------------------------------------------------------------------------------
+// value sets (as i128, duplicate-free, "simplest first": by magnitude, non-negative first)
+// ---------------------------------------------------------------------------------------
+
+using Set = std::vector<V>;
+
+inline void sort_simplest_first(Set& v)
 {
-    std::sort(v.begin(), v.end(), [](T a, T b) {
-        i128 const aa = iabs(i128(a)), bb = iabs(i128(b));
+    std::sort(v.begin(), v.end(), [](V a, V b) {
+        i128 const aa = iabs(a), bb = iabs(b);
         if (aa != bb) { return aa < bb; }
         return a > b;
     });
@@ -99,12 +119,12 @@ void sort_simplest_first(std::vector<T>& v)
 
 /// every value of an 8- or 16-bit type
 template <typename T>
-std::vector<T> const& all_values()
+Set const& all_values()
 {
     static_assert(sizeof(T) <= 2);
-    static std::vector<T> const v = [] {
-        std::vector<T> o;
-        for (i128 x = min_v<T>; x <= max_v<T>; ++x) { o.push_back(T(x)); }
+    static Set const v = [] {
+        Set o;
+        for (i128 x = min_v<T>; x <= max_v<T>; ++x) { o.push_back(x); }
         sort_simplest_first(o);
         return o;
     }();
@@ -113,12 +133,12 @@ std::vector<T> const& all_values()
 
 /// The boundary lattice of a type (any width): 0, 1, every single bit b, b-2, b-1 (= all ones
 /// below the bit), b+1, alternating/byte patterns, small numbers and products/powers of small
-/// primes (so that gcd/lcm/ipow have non-trivial results), the bitwise complement of each of
-/// those (gives -b, -b+-1, limits, limits-+1 for signed types).  Duplicate-free.
+/// primes (so that gcd/lcm/ipow have non-trivial results), and the bitwise complement of each
+/// of those (gives -b, -b+-1, limits, limits-+1 for signed types).
 template <typename T>
-std::vector<T> const& lattice()
+Set const& lattice()
 {
-    static std::vector<T> const v = [] {
+    static Set const v = [] {
         using U         = std::make_unsigned_t<T>;
         constexpr int W = width_v<T>;
         std::set<U> s;
@@ -151,8 +171,8 @@ std::vector<T> const& lattice()
             f *= k;
             add(f);
         }
-        std::vector<T> o;
-        for (U u : s) { o.push_back(T(u)); }
+        Set o;
+        for (U u : s) { o.push_back(i128(T(u))); }
         sort_simplest_first(o);
         return o;
     }();
@@ -161,7 +181,7 @@ std::vector<T> const& lattice()
 
 /// complete value set used for a type: every value up to 16 bits, the lattice above
 template <typename T>
-std::vector<T> const& full()
+Set const& full()
 {
     if constexpr (sizeof(T) <= 2) {
         return all_values<T>();
@@ -172,7 +192,7 @@ std::vector<T> const& full()
 
 /// small set: every value for 8 bits, the lattice ("boundary grid") from 16 bits on
 template <typename T>
-std::vector<T> const& small()
+Set const& small()
 {
     if constexpr (sizeof(T) == 1) {
         return all_values<T>();
@@ -183,13 +203,13 @@ std::vector<T> const& small()
 
 /// full(T) without small(T) (non-empty only for 16-bit types)
 template <typename T>
-std::vector<T> const& full_minus_small()
+Set const& full_minus_small()
 {
-    static std::vector<T> const v = [] {
-        std::vector<T> o;
+    static Set const v = [] {
+        Set o;
         if constexpr (sizeof(T) == 2) {
-            std::set<T> g(lattice<T>().begin(), lattice<T>().end());
-            for (T x : all_values<T>()) {
+            std::set<V> g(lattice<T>().begin(), lattice<T>().end());
+            for (V x : all_values<T>()) {
                 if (g.count(x) == 0) { o.push_back(x); }
             }
         }
@@ -198,21 +218,22 @@ std::vector<T> const& full_minus_small()
     return v;
 }
 
-template <typename T, typename U>
 struct Product {
-    std::vector<T> const* a;
-    std::vector<U> const* b;
+    Set const* a;
+    Set const* b;
 };
-template <typename T, typename U>
-using Space = std::vector<Product<T, U>>;
+using Space = std::vector<Product>;
 
-/// The pair space of two types: full(T) x full(U), except that two 16-bit types get
-/// (all x grid) u (grid x all).  The parts are disjoint.
+/// The pair space of two types.  wide16 == true: full(T) x full(U), except that two 16-bit
+/// types get (2^16 x grid) u (grid x 2^16).  wide16 == false: 16-bit types contribute their
+/// grid only (grid x grid, grid x lattice, 2^8 x grid).  The parts are disjoint.
 template <typename T, typename U>
-Space<T, U> pair_space()
+Space pair_space(bool wide16)
 {
-    Space<T, U> s;
-    if constexpr (sizeof(T) == 2 && sizeof(U) == 2) {
+    Space s;
+    if (!wide16) {
+        s.push_back({&small<T>(), &small<U>()});
+    } else if constexpr (sizeof(T) == 2 && sizeof(U) == 2) {
         s.push_back({&full<T>(), &small<U>()});
         s.push_back({&small<T>(), &full_minus_small<U>()});
     } else {
@@ -223,16 +244,29 @@ Space<T, U> pair_space()
 
 /// thorough: the complete 2^16 x 2^16 square, slice `chunk` of `nchunks` along the first axis
 template <typename T>
-std::vector<T> slice16(unsigned chunk, unsigned nchunks)
+Set slice16(unsigned chunk, unsigned nchunks)
 {
     auto const& all     = all_values<T>();
     std::size_t const n = all.size() / nchunks;
-    return std::vector<T>(all.begin() + std::ptrdiff_t(chunk * n), all.begin() + std::ptrdiff_t((chunk + 1) * n));
+    return Set(all.begin() + std::ptrdiff_t(chunk * n), all.begin() + std::ptrdiff_t((chunk + 1) * n));
+}
+
+/// In the sanitizer flavour the 2^16 axes are replaced by the grid: UB does not hide between
+/// grid points of a 16-bit type any better than between those of a 32-bit type, and the
+/// instrumented build is several times slower.
+inline bool wide16_default()
+{
+#if defined(MC_FLAVOUR_SAN)
+    return false;
+#else
+    return true;
+#endif
 }
 
 // ---------------------------------------------------------------------------------------
 // guarded loop: runs body(i) for i in [0,n); a trap (contract handler, signal, hang) ends
 // only the failing point, which is reported through on_trap(i, trap); the loop resumes at i+1
+// when on_trap returns true and ends when it returns false
 // ---------------------------------------------------------------------------------------
 
 inline volatile std::size_t g_cur = 0;
@@ -250,7 +284,7 @@ void guarded_for(std::size_t n, Body&& body, OnTrap&& on_trap)
         });
         if (t == mc::Trap::none) { return; }
         std::size_t const at = g_cur;
-        on_trap(at, t);
+        if (!on_trap(at, t)) { return; }
         start = at + 1;
     }
 }
@@ -281,13 +315,41 @@ struct Ctx {
     mc::Reporter& r;
     std::uint64_t evals{0}, nontriv{0}, skipped{0};
     bool stop{false};
+    // a sweep is abandoned after this many traps (each stack overflow costs ~10 ms, each hang
+    // hang_ticks seconds); the violations recorded up to then stand
+    unsigned trap_budget{24};
+    unsigned traps_in_sweep{0};
+    bool sweep_aborted{false};
 
-    explicit Ctx(mc::Reporter& rr) : r(rr) { }
+    explicit Ctx(mc::Reporter& rr) : r(rr) { mc::traps().hang_ticks = 4; }
+    Ctx(Ctx const&)            = delete;
+    Ctx& operator=(Ctx const&) = delete;
     ~Ctx()
     {
         r.count("evaluations", evals);
         r.count("distinct_nontrivial", nontriv);
         r.count("out_of_domain_skipped", skipped);
+    }
+    void begin_sweep()
+    {
+        traps_in_sweep = 0;
+        sweep_aborted  = false;
+        seen.clear();
+    }
+    // classes already recorded for the current sweep (one subject): later mismatches of the
+    // same class only bump the counter, no case string is built
+    std::map<std::string, mc::Violation*> seen;
+    template <typename Kase>
+    void mismatch_lazy(char const* subject, std::string const& cls, Kase&& kase, i128 got, i128 want)
+    {
+        auto it = seen.find(cls);
+        if (it != seen.end()) {
+            if (it->second != nullptr) { it->second->count += 1; }
+            return;
+        }
+        mismatch(subject, cls, kase(), got, want);
+        auto v = r.viols.find(std::make_tuple(std::string("C14"), std::string(subject), cls));
+        seen.emplace(cls, v == r.viols.end() ? nullptr : &v->second);
     }
 
     bool deadline()
@@ -307,119 +369,189 @@ struct Ctx {
     {
         r.violation("C02", subject, cls, kase, "UBSan/ASan report inside the tetl call on an in-domain argument (see job log)");
     }
-    void trap(std::string const& subject, std::string const& cls, std::string const& kase, mc::Trap t, i128 want)
+    /// the two oracles (libstdc++ and the closed form) must agree; if not, the harness is wrong
+    void oracle_disagreement(char const* what, std::string const& kase, i128 lib, i128 closed)
+    {
+        r.violation("C14", mc::cat("oracle-disagreement:", what), "harness", kase, mc::cat("libstdc++=", dec(lib), " closed form=", dec(closed)));
+    }
+    /// returns false when the sweep should be abandoned
+    bool trap(std::string const& subject, std::string const& cls, std::string const& kase, mc::Trap t, i128 want)
     {
         bool const contract = (t == mc::Trap::assert_fired);
         r.violation(contract ? "C05" : "C02", subject, mc::cat(cls, "/", mc::trap_name(t)), kase, mc::describe_trap(t));
         // no value was returned where the definition gives one: also a functional failure
         r.violation("C14", subject, cls, kase, mc::cat("tetl=<", mc::describe_trap(t), "> reference=", dec(want)));
+        if (++traps_in_sweep >= trap_budget || t == mc::Trap::hang) {
+            sweep_aborted = true;
+            r.not_exhaustive(mc::cat("sweep of ", subject, " abandoned after ", traps_in_sweep, " traps (last: ", mc::trap_name(t), ")"));
+            return false;
+        }
+        return true;
     }
 };
 
 // ---------------------------------------------------------------------------------------
-// sweeps.  All callables are pure; `call` is the only one that touches tetl.
-//   dom(x[,y])  -> bool      in the documented domain (and valid for the reference)
-//   ref(x[,y])  -> i128      the defined value
-//   call(x[,y]) -> i128      tetl
-//   cls(x[,y])  -> string    argument class (from the case only)
-//   nt(x[,y])   -> bool      non-trivial by the rule of the property file
+// sweeps.  A sweep is a table of plain functions; `call` is the only one that touches tetl.
+//   dom(x[,y])    in the documented domain (and valid for the reference)
+//   call(x[,y])   tetl
+//   ref(c,x[,y])  the defined value (may cross-check two oracles through c)
+//   cls(x[,y])    argument class, from the case only
+//   nt(x[,y])     non-trivial by the rule of the property file
 // ---------------------------------------------------------------------------------------
 
-template <typename T, typename Dom, typename Call, typename Ref, typename Cls, typename NT>
-void sweep1(Ctx& c, char const* subject, std::vector<T> const& A, Dom dom, Call call, Ref ref, Cls cls, NT nt,
-    char const* tlabel = nullptr)
+struct Unary {
+    char const* subject;
+    TI tx;
+    char const* xname;
+    bool (*dom)(V);
+    V (*call)(V);
+    V (*ref)(Ctx&, V);
+    std::string (*cls)(V);
+    bool (*nt)(V);
+    std::string note{}; // e.g. "To=i8", printed in front of the case
+};
+
+struct Binary {
+    char const* subject;
+    TI tx, ty;
+    char const* xname;
+    char const* yname;
+    bool (*dom)(V, V);
+    V (*call)(V, V);
+    V (*ref)(Ctx&, V, V);
+    std::string (*cls)(V, V);
+    bool (*nt)(V, V);
+};
+
+inline bool always1(V) { return true; }
+inline bool always2(V, V) { return true; }
+
+inline std::string kase1(Unary const& s, V x)
 {
-    if (!c.r.want(subject) || c.stop) { return; }
-    std::string const tl = tlabel ? tlabel : tname<T>();
+    return mc::cat(s.note.empty() ? "" : s.note + " ", s.tx.name, " ", s.xname, "=", show(x, s.tx));
+}
+inline std::string kase2(Binary const& s, V x, V y)
+{
+    if (std::string(s.tx.name) == s.ty.name) { return mc::cat(s.tx.name, " ", s.xname, "=", show(x, s.tx), " ", s.yname, "=", show(y, s.ty)); }
+    return mc::cat(s.tx.name, " ", s.xname, "=", show(x, s.tx), " ", s.ty.name, " ", s.yname, "=", show(y, s.ty));
+}
+
+[[gnu::noinline]] inline void sweep1(Ctx& c, Unary const& s, Set const& A)
+{
+    if (!c.r.want(s.subject) || c.stop) { return; }
     Outcomes oc;
-    auto kase = [&](T x) { return mc::cat(tl, " x=", show(x)); };
+    c.begin_sweep();
     guarded_for(
         A.size(),
         [&](std::size_t i) {
-            T const x = A[i];
-            if (!dom(x)) {
+            V const x = A[i];
+            if (s.dom != always1 && !s.dom(x)) {
                 ++c.skipped;
                 return;
             }
-            i128 const want = ref(x);
-            auto const s0   = mc::san_hits();
-            i128 const got  = call(x);
-            auto const s1   = mc::san_hits();
+            V const want  = s.ref(c, x);
+            auto const s0 = mc::san_hits();
+            V const got   = s.call(x);
+            auto const s1 = mc::san_hits();
             ++c.evals;
-            c.nontriv += nt(x) ? 1 : 0;
+            c.nontriv += s.nt(x) ? 1 : 0;
             oc.add(got);
-            if (got != want) [[unlikely]] { c.mismatch(subject, cls(x), kase(x), got, want); }
-            if (s1 != s0) [[unlikely]] { c.san(subject, cls(x), kase(x)); }
+            if (got != want) [[unlikely]] { c.mismatch_lazy(s.subject, s.cls(x), [&] { return kase1(s, x); }, got, want); }
+            if (s1 != s0) [[unlikely]] { c.san(s.subject, s.cls(x), kase1(s, x)); }
         },
-        [&](std::size_t i, mc::Trap t) { c.trap(subject, cls(A[i]), kase(A[i]), t, ref(A[i])); });
+        [&](std::size_t i, mc::Trap t) { return c.trap(s.subject, s.cls(A[i]), kase1(s, A[i]), t, s.ref(c, A[i])); });
     if (c.r.wants_sample() && !A.empty()) {
-        T const x = A[A.size() / 3];
-        if (dom(x)) { c.r.sample(mc::cat(subject, " ", kase(x), " -> ", dec(ref(x)))); }
+        V const x = A[A.size() / 3];
+        if (s.dom(x)) { c.r.sample(mc::cat(s.subject, " ", kase1(s, x), " -> ", dec(s.ref(c, x)))); }
     }
-    oc.flush(c.r, mc::hash_str(subject));
+    oc.flush(c.r, mc::hash_str(s.subject));
 }
 
-template <typename T, typename U, typename Dom, typename Call, typename Ref, typename Cls, typename NT>
-void sweep2(Ctx& c, char const* subject, Space<T, U> const& space, Dom dom, Call call, Ref ref, Cls cls, NT nt,
-    char const* xname = "x", char const* yname = "y")
+[[gnu::noinline]] inline void sweep2(Ctx& c, Binary const& s, Space const& space)
 {
-    if (!c.r.want(subject) || c.stop) { return; }
+    if (!c.r.want(s.subject) || c.stop) { return; }
     Outcomes oc;
-    auto kase = [&](T x, U y) {
-        if constexpr (std::is_same_v<T, U>) {
-            return mc::cat(tname<T>(), " ", xname, "=", show(x), " ", yname, "=", show(y));
-        } else {
-            return mc::cat(tname<T>(), " ", xname, "=", show(x), " ", tname<U>(), " ", yname, "=", show(y));
-        }
-    };
+    c.begin_sweep();
     for (auto const& part : space) {
-        auto const& A = *part.a;
-        auto const& B = *part.b;
+        Set const& A = *part.a;
+        Set const& B = *part.b;
         for (std::size_t ia = 0; ia < A.size(); ++ia) {
             if ((ia & 63U) == 0 && c.deadline()) { return; }
-            T const x = A[ia];
+            if (c.sweep_aborted) { break; }
+            V const x = A[ia];
             guarded_for(
                 B.size(),
                 [&](std::size_t j) {
-                    U const y = B[j];
-                    if (!dom(x, y)) {
+                    V const y = B[j];
+                    if (s.dom != always2 && !s.dom(x, y)) {
                         ++c.skipped;
                         return;
                     }
-                    i128 const want = ref(x, y);
-                    auto const s0   = mc::san_hits();
-                    i128 const got  = call(x, y);
-                    auto const s1   = mc::san_hits();
+                    V const want  = s.ref(c, x, y);
+                    auto const s0 = mc::san_hits();
+                    V const got   = s.call(x, y);
+                    auto const s1 = mc::san_hits();
                     ++c.evals;
-                    c.nontriv += nt(x, y) ? 1 : 0;
+                    c.nontriv += s.nt(x, y) ? 1 : 0;
                     oc.add(got);
-                    if (got != want) [[unlikely]] { c.mismatch(subject, cls(x, y), kase(x, y), got, want); }
-                    if (s1 != s0) [[unlikely]] { c.san(subject, cls(x, y), kase(x, y)); }
+                    if (got != want) [[unlikely]] { c.mismatch_lazy(s.subject, s.cls(x, y), [&] { return kase2(s, x, y); }, got, want); }
+                    if (s1 != s0) [[unlikely]] { c.san(s.subject, s.cls(x, y), kase2(s, x, y)); }
                 },
-                [&](std::size_t j, mc::Trap t) { c.trap(subject, cls(x, B[j]), kase(x, B[j]), t, ref(x, B[j])); });
+                [&](std::size_t j, mc::Trap t) { return c.trap(s.subject, s.cls(x, B[j]), kase2(s, x, B[j]), t, s.ref(c, x, B[j])); });
         }
     }
     if (c.r.wants_sample() && !space.empty() && !space[0].a->empty() && !space[0].b->empty()) {
-        T const x = (*space[0].a)[space[0].a->size() / 3];
-        U const y = (*space[0].b)[space[0].b->size() / 2];
-        if (dom(x, y)) { c.r.sample(mc::cat(subject, " ", kase(x, y), " -> ", dec(ref(x, y)))); }
+        V const x = (*space[0].a)[space[0].a->size() / 3];
+        V const y = (*space[0].b)[space[0].b->size() / 2];
+        if (s.dom(x, y)) { c.r.sample(mc::cat(s.subject, " ", kase2(s, x, y), " -> ", dec(s.ref(c, x, y)))); }
     }
-    oc.flush(c.r, mc::hash_str(subject));
+    oc.flush(c.r, mc::hash_str(s.subject));
 }
 
-inline auto always = [](auto...) { return true; };
+/// Lean template for the thorough 2^16 x 2^16 squares: `both(x,y,got,want)` evaluates tetl and
+/// the reference on native types; no domain filter (total functions only), a guard per row.
+template <typename T, typename U, typename Both>
+void square16(Ctx& c, char const* subject, Set const& rows, std::string (*cls)(V, V), Both both)
+{
+    if (!c.r.want(subject) || c.stop) { return; }
+    static std::vector<U> const cols = [] {
+        std::vector<U> v;
+        for (V y : all_values<U>()) { v.push_back(U(y)); }
+        return v;
+    }();
+    Binary const meta{subject, ti<T>(), ti<U>(), "x", "y", always2, nullptr, nullptr, cls, always2};
+    c.begin_sweep();
+    for (std::size_t ia = 0; ia < rows.size(); ++ia) {
+        if ((ia & 63U) == 0 && c.deadline()) { return; }
+        T const x          = T(rows[ia]);
+        mc::Trap const t   = mc::guarded([&] {
+            for (U const y : cols) {
+                V got = 0, want = 0;
+                both(x, y, got, want);
+                if (got != want) [[unlikely]] { c.mismatch_lazy(subject, cls(V(x), V(y)), [&] { return kase2(meta, V(x), V(y)); }, got, want); }
+            }
+        });
+        c.evals += cols.size();
+        c.nontriv += fits<U>(V(x)) ? cols.size() - 1 : cols.size(); // pairs with x != y
+        if (t != mc::Trap::none) {
+            c.r.violation(t == mc::Trap::assert_fired ? "C05" : "C02", subject, mc::cat("row/", mc::trap_name(t)),
+                mc::cat(tname<T>(), " x=", dec(V(x)), " (some y)"), mc::describe_trap(t));
+            c.r.violation("C14", subject, "row-trap", mc::cat(tname<T>(), " x=", dec(V(x)), " (some y)"), mc::describe_trap(t));
+        }
+    }
+}
 
 /// generic unary argument class
 template <typename T>
-std::string cls_unary(T x)
+std::string cls_unary(V v)
 {
     using U   = std::make_unsigned_t<T>;
-    U const u = U(x);
+    U const u = U(T(v));
     if (u == 0) { return "zero"; }
     if (u == std::numeric_limits<U>::max()) { return "all_ones"; }
-    if (std::is_signed_v<T> && i128(x) == min_v<T>) { return "min"; }
+    if (std::is_signed_v<T> && v == min_v<T>) { return "min"; }
     if (std::has_single_bit(u)) { return "single_bit"; }
-    if (std::is_signed_v<T> && x < 0) { return "negative"; }
+    if (std::is_signed_v<T> && v < 0) { return "negative"; }
     if ((u >> (width_v<T> - 1)) != 0) { return "top_bit_set"; }
     return "general";
 }
